@@ -42,18 +42,15 @@ class BirthDeathModel(CallableModel):
         self.origin = origin
         self.survival = survival
 
-    def handle_model_changed(self, model, obj, index):
-        pass
-
     def _sample_shape(self) -> torch.Size:
         return max(
             self.tree_model.node_heights.shape[:-1], self.lambda_.shape[:-1], key=len
         )
 
     def _call(self):
-        lambda_ = self.R.tensor * self.delta.tensor
-        mu = self.delta.tensor - self.s.tensor * self.delta.tensor
-        psi = self.s.tensor * self.delta.tensor
+        lambda_ = self.lambda_.tensor
+        mu = self.mu.tensor
+        psi = self.psi.tensor
         if self.rho.shape[-1] != lambda_.shape[-1]:
             rho = torch.cat(
                 (
